@@ -197,8 +197,8 @@ Proof.
       destruct (memb (sig_name s) _) eqn:Hn1; [discriminate|].
       destruct (names_clash _ _) eqn:Hn2; [discriminate|].
       apply bind_ok in Hstep. destruct Hstep as ([] & Hv & Hstep). inversion Hstep; subst cur'; clear Hstep.
-      destruct (load_sig_ok now ev Htypes _ _ Hs) as [Hokb Hsize].
-      pose proof (load_sig_ids_incl now ev _ _ Hs) as Hincl.
+      destruct (load_sig_ok now ev Htypes _ _ _ Hs) as [Hokb Hsize].
+      pose proof (load_sig_ids_incl now ev _ _ _ Hs) as Hincl.
       rewrite El in Hnd. rewrite flat_map_app in Hnd. cbn in Hnd.
       assert (Hps : NoDup (psig_ids ps)) by (apply NoDup_app_r in Hnd; apply NoDup_app_l in Hnd; auto).
       assert (Hdis : disjoint (flat_map psig_ids pre) (psig_ids ps)).
@@ -243,6 +243,7 @@ Theorem load_msg_ok : forall sender pm m,
 Proof.
   intros sender pm m Hnd Hsz H. unfold load_msg in H.
   apply bind_ok in H. destruct H as (ent & Hent & H).
+  destruct (pm_size pm >? 8); [discriminate|].
   apply bind_ok in H. destruct H as (sigs & Hsigs & H).
   apply bind_ok in H. destruct H as (recs & Hrecs & H).
   apply bind_ok in H. destruct H as (asg & Hasg & H).
